@@ -1,10 +1,12 @@
 """registry entry of C15 (see vlib/registry.py)"""
 PROP = {'level': 'proof',
- 'claim': 'Proof for ArrayConsumer / ArrayBuilder / by-value map_! (9 theorems): every history of front/back '
-          'takes, clones, and drop / forget / assert_is_empty on a consumer owning xs behaves like a deque; '
-          'elements handed out from the front ++ elements dropped or leaked at the end ++ reverse(elements '
-          'handed out from the back) = xs (each exactly once, in order); forget leaks exactly what was not '
-          'taken (nothing after exhaustion); clones own fresh copies and obey the same law; the builder '
+ 'claim': 'Proof for ArrayConsumer / ArrayBuilder / by-value map_! (13 theorems): every history of '
+          'front/back takes, clones, and drop / forget / assert_is_empty on a consumer owning xs behaves '
+          'like a deque; elements handed out from the front ++ elements dropped or leaked at the end ++ '
+          'reverse(elements handed out from the back) = xs (each exactly once, in order); forget leaks '
+          'exactly what was not taken (nothing after exhaustion); clones own fresh copies and obey the same '
+          'law; a clone whose element Clone PANICS on any call drops exactly the copies made so far (never '
+          'an unwritten slot) and leaves the original intact (ArrayConsumer and ArrayBuilder); the builder '
           'hands out or drops exactly the accepted pushes; map_! hands each input to the closure once in '
           'order and returns each output once; with early exits every input is closure-consumed, dropped or '
           '(only on the panicking break path) leaked exactly once. destructure! is exploration-backed: the '
@@ -19,10 +21,18 @@ PROP = {'level': 'proof',
          'destructure! on tuples (1..16 fields), tuple/braced/packed/generic structs with E, u32, (), (E,E), '
          '[E;2], nested-struct fields under all-bind / all-wild / alternating / first-wild / last-wild '
          'patterns and all prefix/rest/suffix array patterns over {bind, _, r @ .., ..} for lengths 0..=3 '
-         '(quick) / 0..=4 (thorough); rejected forms compiled one by one.',
+         '(quick) / 0..=4 (thorough); rejected forms compiled one by one. Histories with a clone whose '
+         'element Clone panics on its j-th call (j = 0..3, caught; depth 4 quick / 5 thorough, mixed with '
+         'takes and clones) for ArrayConsumer and ArrayBuilder. destructure! on #[repr(packed)] / #[repr(C, '
+         'packed)] / #[repr(packed(2))] tuple and braced structs whose u16/u32/u64/String/E fields sit at '
+         'MISALIGNED offsets (u8 fields interleaved), at run time and evaluated at COMPILE TIME in const '
+         'items and const fns (108 const cases; the const evaluator checks the alignment of every read; '
+         'verdict accept + values equal); thorough tier: the run-time packed cases as one program under '
+         'cargo +nightly miri run with -Zmiri-symbolic-alignment-check (UB report = violation).',
  'explanation': 'Ledgers `[id:m|id:d|id:c]` of a drop-logging element with unique ids are compared three '
                 'ways (real konst code, std VecDeque/Vec/native-let oracle, Lean model and reference).',
  'assumptions': ['ptr::read / read_unaligned preserve bits and ManuallyDrop suppresses the drop: facts about '
-                 'Rust, observed (payload check of every element), not proved',
+                 'Rust, observed (payload check of every element; alignment of the reads observed by const '
+                 'evaluation of packed structs and, thorough tier, Miri), not proved',
                  "destructure!: rustc's acceptance of the guard patterns is a verdict table checked by "
                  'compiling programs']}
